@@ -504,9 +504,6 @@ class Concatenator(Group):  # pylint: disable=too-many-public-methods
                 object_ids.remove(as_str_if_uuid(entity.uid).encode())
                 self.concatenated_object_ids = object_ids
 
-            if entity in self._children:
-                self._children.remove(entity)
-
         elif isinstance(entity, ConcatenatedPropertyGroup):
             # Remove all data within the group
             if entity.properties is not None and len(entity.properties) > 0:
@@ -524,6 +521,10 @@ class Concatenator(Group):  # pylint: disable=too-many-public-methods
             self.attributes_keys.remove(as_str_if_uuid(entity.uid))
             self.concatenated_attributes["Attributes"].remove(attr_handle)
             self.workspace.repack = True
+
+        siblings = getattr(parent, "_children", None)
+        if siblings is not None and entity in siblings:
+            siblings.remove(entity)
 
     def save_attribute(self, field: str):
         """
